@@ -9,12 +9,15 @@ GenView == vars
 
 GenInit == Init /\ hist = <<>>
 
-Log(ok) == hist' = Append(hist, [ok |-> ok, rise |-> rise, fall |-> fall, flag |-> flag',
+Log(ok) == hist' = Append(hist, [op |-> "result", ok |-> ok, rise |-> rise, fall |-> fall, ic |-> FALSE, flag |-> flag',
                                  succ |-> succ', fail |-> fail'])
+LogR(ic) == hist' = Append(hist, [op |-> "reconf", ok |-> TRUE, rise |-> rise', fall |-> fall', rise0 |-> rise, fall0 |-> fall, ic |-> ic, flag |-> flag',
+                                  succ |-> succ', fail |-> fail'])
 
 GenNext ==
   \/ Success /\ Log(TRUE)
   \/ Failure /\ Log(FALSE)
+  \/ \E r \in Thresholds, f \in Thresholds, ic \in BOOLEAN : (r # rise \/ f # fall) /\ Reconfigure(r, f, ic) /\ LogR(ic)
 
 GenSpec == GenInit /\ [][GenNext]_gvars
 
